@@ -154,6 +154,13 @@ func (db *RockDB) BitSetV2(ts int64, key []byte, offset int64, on int) (int64, e
 	if err := checkKeySize(key); err != nil {
 		return 0, err
 	}
+	// the key must be acceptable for the new format before the old data is converted (and that
+	// conversion committed), otherwise a refused command would have moved the old value away
+	if _, rk, err := extractTableFromRedisKey(key); err != nil {
+		return 0, err
+	} else if err := checkCollKFSize(rk, nil); err != nil {
+		return 0, err
+	}
 
 	wb := db.wb
 	// if new v2 is not exist, merge the old data to the new v2 first
